@@ -1594,6 +1594,9 @@ class Interp:
             if func.cls is not None:
                 env.vars.setdefault('__class__', func.cls)
             if is_generator(fnode):
+                mapped = self.generator_map(fnode, env)
+                if mapped is not None:
+                    return mapped
                 out = []
                 env.yields = out
                 try:
@@ -1610,6 +1613,41 @@ class Interp:
             self.depth -= 1
             if func.module.name.startswith('pycel'):
                 self.world.inlined.add(f'{func.module.name}:{func.name}')
+
+    def generator_map(self, fnode, env):
+        """Generator of the shape  <assignments>; for x in <symbolic-length seq>: yield e
+        becomes the sequence map(e); None when the shape does not apply."""
+        from .seqs import SSeq
+        body = [st for st in fnode.body
+                if not (isinstance(st, ast.Expr) and isinstance(st.value, ast.Constant))]
+        if not body or not isinstance(body[-1], ast.For):
+            return None
+        loop = body[-1]
+        if loop.orelse or len(loop.body) != 1 or not isinstance(loop.body[0], ast.Expr) or \
+                not isinstance(loop.body[0].value, ast.Yield):
+            return None
+        for st in body[:-1]:
+            if not isinstance(st, (ast.Assign, ast.AnnAssign)):
+                return None
+        for st in body[:-1]:
+            self.exec_stmt(st, env)
+        it = self.eval(loop.iter, env)
+        if not isinstance(it, SSeq):
+            # concrete: run eagerly (prefix already executed)
+            out = []
+            env.yields = out
+            try:
+                self.exec_stmt(loop, env)
+            except ReturnSig:
+                pass
+            return out
+        yexpr = loop.body[0].value.value
+
+        def elem(i, idx):
+            lenv = Env(dict(env.vars), env.parent, env.module)
+            i.assign(loop.target, it.elem(i, idx), lenv)
+            return i.eval(yexpr, lenv)
+        return SSeq(it.length_term(), elem, 'generator')
 
     # -- statements -------------------------------------------------------------
     def exec_block(self, stmts, env):
